@@ -36,6 +36,35 @@ fn hint_family<const K: usize>(omega: usize, bad: &mut u32) {
         let r = std::panic::catch_unwind(move || { let mut b = 0u32; hint_case::<K>(omega, &yy, &mut b); b });
         match r { Ok(b) => *bad += b, Err(_) => { std::println!("C08 hint decoder PANICS on counts beyond omega: K={} y[omega..]={:?}", K, &y[omega..]); *bad += 1; } }
     }
+    // boundary family: runs of one or two position bytes taken from the boundary values, equal / ascending / descending, in the first,
+    // a middle and the last polynomial, alone or after a filler run; a repeated 255, a repeated 0, 254-255, 255-0 are all in here
+    {
+        let vals: [u8; 8] = [0, 1, 2, 127, 128, 253, 254, 255];
+        for poly in [0usize, K / 2, K - 1] {
+            for filler in [0usize, 1, 3] {
+                for &a in &vals {
+                    for &b in &vals {
+                        for run in [1usize, 2, 3] {
+                            if filler + run > omega { continue; }
+                            let mut y = std::vec![0u8; omega + K];
+                            // filler hints live in polynomial 0 (or in `poly` itself when poly == 0): strictly increasing small positions
+                            let mut pos = 0usize;
+                            let mut counts = std::vec![0usize; K];
+                            if poly > 0 { for t in 0..filler { y[pos] = (3 + 2 * t) as u8; pos += 1; } for c in counts.iter_mut().take(poly) { *c = pos; } }
+                            let seq: std::vec::Vec<u8> = match run { 1 => std::vec![a], 2 => std::vec![a, b], _ => std::vec![a, b, b] };
+                            for v in &seq { y[pos] = *v; pos += 1; }
+                            for c in counts.iter_mut().skip(poly) { *c = pos; }
+                            for i in 0..K { y[omega + i] = counts[i] as u8; }
+                            let yy = y.clone();
+                            let r = std::panic::catch_unwind(move || { let mut b2 = 0u32; hint_case::<K>(omega, &yy, &mut b2); b2 });
+                            match r { Ok(b2) => *bad += b2, Err(_) => { std::println!("C08 hint decoder PANICS on boundary run {:?} in polynomial {}", seq, poly); *bad += 1; } }
+                            if *bad > 6 { return; }
+                        }
+                    }
+                }
+            }
+        }
+    }
     // a valid base: counts spread over polynomials, strictly increasing indices inside each
     for round in 0..400 {
         let mut y = std::vec![0u8; omega + K];
